@@ -153,6 +153,60 @@ func (m *Model) checkC07(i int, pre, post view) []common.Violation {
 	return out
 }
 
+// checkC07State is the state part of the truncation oracle (no pre-state needed): checkpointed funds equal the
+// net flow of exactly the stored vertices, the stored set is ancestor-closed and disjoint from the live DAG.
+func (m *Model) checkC07State(i int, post view) []common.Violation {
+	var out []common.Violation
+	R := m.W.Ref
+	set := map[[32]byte]bool{}
+	addrs := map[string]bool{}
+	for h, x := range post.stored {
+		R.Learn(x)
+		set[h] = true
+		addrs[x.Transaction.IssuerAddress] = true
+		addrs[x.Transaction.ReceiverAddress] = true
+		if _, still := post.live[h]; still {
+			out = append(out, viol("C07", "C07.moved", "C07.moved-vertex-still-live", fmt.Sprintf("node %d: %s is checkpointed and still in the live DAG", i, R.Name(h)), nil))
+		}
+		for _, p := range [][32]byte{x.LeftParentHash, x.RightParentHash} {
+			if p == ([32]byte{}) {
+				continue
+			}
+			if _, ok := post.stored[p]; !ok {
+				out = append(out, viol("C07", "C07.moved", "C07.checkpoint-not-ancestor-closed", fmt.Sprintf("node %d: %s was checkpointed but its parent %s was not", i, R.Name(h), R.Name(p)), nil))
+			}
+		}
+	}
+	for a := range post.S.Funds {
+		addrs[a] = true
+	}
+	for a := range addrs {
+		in, o := R.Flow(a, set)
+		want := new(big.Int).Sub(in, o)
+		got := new(big.Int)
+		if f, ok := post.S.Funds[a]; ok {
+			got = world.Big(f)
+		}
+		if want.Sign() < 0 && a == post.S.Genesis {
+			continue
+		}
+		if got.Cmp(want) != 0 {
+			out = append(out, viol("C07", "C07.checkpoint", "C07.checkpoint-funds-wrong", fmt.Sprintf("node %d: checkpointed funds of %s are %s, net flow of the checkpointed vertices is %s", i, world.AddrName(a), got, want), nil))
+		}
+	}
+	for _, x := range post.live {
+		for _, p := range [][32]byte{x.LeftParentHash, x.RightParentHash} {
+			if p == ([32]byte{}) {
+				continue
+			}
+			if !post.has(p) {
+				out = append(out, viol("C07", "C07.lookup", "C07.vertex-lost", fmt.Sprintf("node %d: parent %s of live %s is neither live nor checkpointed", i, R.Name(p), R.Name(x.Hash)), nil))
+			}
+		}
+	}
+	return out
+}
+
 // ---- C13: orphans are parked and later admitted ----
 
 func (m *Model) checkC13(post []view, e, res string) []common.Violation {
